@@ -484,3 +484,48 @@ class DependenciesCoverCrossTableWrites(Contract):
         return all(a._variant in getTableClass(tag).dependencies for tag in written)
 
     ensures = [prop("every-table-written-to-declares-the-writer-as-dependency", lambda a, old, r: DependenciesCoverCrossTableWrites._post(a))]
+
+
+@contract
+class ReadTableSharedCache(ReadTableFallback):
+    """TTCollection members share a table cache keyed by (tag, data).  A table whose decompile
+    fails under ignoreDecompileErrors must reach EVERY member as the raw DefaultTable: after the
+    first member has read it, a second member sharing the cache gets a DefaultTable with the same
+    bytes (never the half-decoded object), and the cache holds nothing else; when decompile
+    succeeds both members get the one decoded object."""
+    qualname = "TTFont._readTable"
+    props = ("C20", "C01")
+    variants = tuple((e.__name__, True) for e in EXC_TYPES) + (("none", True),)
+    expect_exceptional_only = ()
+    raises = {}
+
+    def args(self, S, variant):
+        d = ReadTableFallback.args(self, S, variant)
+        from fontTools.ttLib import TTFont
+        cache = {}
+        d["self"]._tableCache = cache
+        other = TTFont()
+        other.reader = {"zzzz": d["_data"]}
+        other.ignoreDecompileErrors = True
+        other._tableCache = cache
+        d["_other"], d["_cache"] = other, cache
+        return d
+
+    def call(self, f, a):
+        first = f(a.self, a.tag)
+        second = f(a._other, a.tag)
+        return first, second
+
+    @staticmethod
+    def _shared(self, a, r):
+        from fontTools.ttLib.tables.DefaultTable import DefaultTable
+        first, second = r
+        cached = list(a._cache.values())
+        if self._exc is None:
+            return first is second and cached == [first] and first.data_seen is a._data
+        return (type(second) is DefaultTable and second.data is a._data and type(first) is DefaultTable
+                and all(type(t) is DefaultTable for t in cached) and len(cached) == 1)
+
+    @property
+    def ensures(self):
+        return [prop("every-member-gets-the-raw-fallback-table", lambda a, old, r, self=self: ReadTableSharedCache._shared(self, a, r))]
